@@ -323,6 +323,10 @@ func (w *ResponseWriter) WriteMsg(m *dns.Msg) error {
 			opt = w.ensureOpt()
 			m.Extra = append(m.Extra, opt)
 		}
+		// Exactly one OPT goes out (RFC 6891 §6.1.1). A response that
+		// arrived with several would otherwise have only the last one
+		// shaped below and the others delivered as they came.
+		m.Extra = dropOtherOPTs(m.Extra, opt)
 
 		// Set common OPT parameters
 		opt.SetDo(w.do)
@@ -404,6 +408,29 @@ func (w *ResponseWriter) WriteMsg(m *dns.Msg) error {
 	}
 
 	return w.ResponseWriter.WriteMsg(m)
+}
+
+// dropOtherOPTs returns extra without any OPT record other than keep. The
+// common case — a single OPT — returns extra itself; otherwise a fresh
+// slice, since the message's sections may still be referenced elsewhere.
+func dropOtherOPTs(extra []dns.RR, keep *dns.OPT) []dns.RR {
+	others := 0
+	for _, rr := range extra {
+		if o, ok := rr.(*dns.OPT); ok && o != keep {
+			others++
+		}
+	}
+	if others == 0 {
+		return extra
+	}
+	out := make([]dns.RR, 0, len(extra)-others)
+	for _, rr := range extra {
+		if o, ok := rr.(*dns.OPT); ok && o != keep {
+			continue
+		}
+		out = append(out, rr)
+	}
+	return out
 }
 
 // keepOPTOnly returns just the OPT record from extra, or nil without one —
